@@ -364,6 +364,24 @@ impl Prop for C15 {
                             flags |= rn::F_VERSION;
                         }
                         flags |= if unicode { rn::F_UNICODE } else { rn::F_OEM };
+                        // thorough: every string of the alphabet as user and as domain (Unicode sessions), two layouts, all six
+                        // target-information shapes, both logon kinds
+                        if tier == Tier::Thorough && unicode {
+                            for s in &strings {
+                                for (domain, user) in [("DOM".to_string(), s.clone()), (s.clone(), "user".to_string())] {
+                                    if domain == "DOM" && !rn::uppercase_unambiguous(&user) {
+                                        continue;
+                                    }
+                                    for layout in [0u8, 1] {
+                                        for av in &avs {
+                                            for via_hash in [false, true] {
+                                                cs.push(Case { flags, via_hash, layout, av: av.clone(), domain: domain.clone(), user: user.clone(), block: "product-x-alphabet", ..base.clone() });
+                                            }
+                                        }
+                                    }
+                                }
+                            }
+                        }
                         let accounts: Vec<(&str, &str, &str)> = if unicode { vec![("DOM", "user", "S3cr3t-pässwörd"), ("日", "é日😀", "pä$$ 😀"), ("", "user", ""), ("contoso.local", "Alice", "x"), ("corp", "rené", "pw"), ("straße.example", "😀x", "pw")] } else { vec![("DOM", "USER", "S3cr3t-pässwörd"), ("", "USER", ""), ("CONTOSO.LOCAL", "ALICE", "x")] };
                         for layout in 0..=3u8 {
                             for av in &avs {
@@ -392,7 +410,7 @@ impl Prop for C15 {
         json!({"idx": idx, "case": self.cases[idx as usize]})
     }
     fn rule(&self) -> String {
-        "cases = (domain, user, password | NT hash, server challenge, client nonce pattern, target-info block, negotiate flags). Strings: class^len for class in {a, é, 日, 😀} x len in {0,1,7,8,15,16,17,31,32,64}, every mixed string of <=3 code points over the four classes, the boundary code points of every UTF-8/UTF-16 encoding length (U+1, 7F, 80, 7FF, 800, D7FF, E000, FFFD, FFFF, 10000, 10001, FFFFF, 100000, 10FFFF) alone and between letters, a few practical names; varied one at a time and jointly (full user x domain and password x domain products in thorough); 4 challenges x 3 nonce patterns; every subset of the 9 optional AV ids with the timestamp at first/middle/last (every) position; every permutation of <=4 pairs including the timestamp; value lengths {0,2,16,510}; target information of 30000..65491 bytes (the largest the 16-bit NT response length can echo) with short and kilobyte-long names; OEM sessions with lower / mixed / upper case ASCII names; both character-set bits set; empty / 1-character / long target names (the target information then starts the payload); the target information placed before the target name, followed by 12 bytes that no field refers to, or preceded by an 8-byte gap after the header; TargetInfo / TargetName MaxLen fields set to 0, 1, 8, 0x7FFF, 0xFFFF while Len stays honest; flags with/without VERSION and UNICODE and neutral bits; every single flag bit outside the default set added alone; a NEGOTIATE sent again before the CHALLENGE (unanswered, or answered by a CHALLENGE the client refuses); REQUEST_TARGET clear with a zeroed or stale TargetName descriptor; nine accounts differing minimally (domain case, user case, password) authenticating one after the other in one thread on fresh objects; 130 handshakes in a row with the real random generator; and a second handshake on the same Ntlm object for every ordered pair of (VERSION, UNICODE) flag sets. Each AUTHENTICATE is verified by the reference MS-NLMP server: field descriptors, NTProofStr, LMv2, key-exchange unwrap, MIC, names; and hash-based == password-based. Non-trivial: every case except the base one. [product] 2 x 2 x 3 flag sets (VERSION, character set, neutral bits) x 4 payload layouts x 5 target-information shapes x 3-4 accounts x password | hash x MaxLen fields equal / 0xFFFF-and-0 x no / empty / long target name (10 080 cases): what only shows when two dimensions coincide. [two-more-flag-bits] every pair of flag bits the default set lacks, and all of them.".into()
+        "cases = (domain, user, password | NT hash, server challenge, client nonce pattern, target-info block, negotiate flags). Strings: class^len for class in {a, é, 日, 😀} x len in {0,1,7,8,15,16,17,31,32,64}, every mixed string of <=3 code points over the four classes, the boundary code points of every UTF-8/UTF-16 encoding length (U+1, 7F, 80, 7FF, 800, D7FF, E000, FFFD, FFFF, 10000, 10001, FFFFF, 100000, 10FFFF) alone and between letters, a few practical names; varied one at a time and jointly (full user x domain and password x domain products in thorough); 4 challenges x 3 nonce patterns; every subset of the 9 optional AV ids with the timestamp at first/middle/last (every) position; every permutation of <=4 pairs including the timestamp; value lengths {0,2,16,510}; target information of 30000..65491 bytes (the largest the 16-bit NT response length can echo) with short and kilobyte-long names; OEM sessions with lower / mixed / upper case ASCII names; both character-set bits set; empty / 1-character / long target names (the target information then starts the payload); the target information placed before the target name, followed by 12 bytes that no field refers to, or preceded by an 8-byte gap after the header; TargetInfo / TargetName MaxLen fields set to 0, 1, 8, 0x7FFF, 0xFFFF while Len stays honest; flags with/without VERSION and UNICODE and neutral bits; every single flag bit outside the default set added alone; a NEGOTIATE sent again before the CHALLENGE (unanswered, or answered by a CHALLENGE the client refuses); REQUEST_TARGET clear with a zeroed or stale TargetName descriptor; nine accounts differing minimally (domain case, user case, password) authenticating one after the other in one thread on fresh objects; 130 handshakes in a row with the real random generator; and a second handshake on the same Ntlm object for every ordered pair of (VERSION, UNICODE) flag sets. Each AUTHENTICATE is verified by the reference MS-NLMP server: field descriptors, NTProofStr, LMv2, key-exchange unwrap, MIC, names; and hash-based == password-based. Non-trivial: every case except the base one. [product] 2 x 2 x 3 flag sets (VERSION, character set, neutral bits) x 4 payload layouts x 5 target-information shapes x 3-4 accounts x password | hash x MaxLen fields equal / 0xFFFF-and-0 x no / empty / long target name (10 080 cases): what only shows when two dimensions coincide. [two-more-flag-bits] every pair of flag bits the default set lacks, and all of them. Thorough: [product-x-alphabet] every alphabet string as user and as domain x the six Unicode flag sets x 2 layouts x 6 target-information shapes x password | hash.".into()
     }
     fn assumptions(&self) -> Vec<String> {
         vec![
